@@ -95,7 +95,7 @@ OrderZones ==
     Recs(<<lu, la, ex>>, {T_A}) \cup Recs(<<la, lu, ex>>, {T_A}) \cup Recs(<<lz, lu, ex>>, {T_TXT})
       \cup Recs(<<lu, lz, ex>>, {T_A}) \cup Recs(<<lu, lu, EX>>, {T_A}) \cup Recs(<<lB, <<91>>, ex>>, {T_A})
       \cup Recs(<<<<96>>, lB, ex>>, {T_A}) \cup Recs(<<lu, ex>>, {T_NS}) }
-  \cup { Recs(<<l, ex>>, {T_A}) \cup Recs(<<m, ex>>, {T_A}) : l, m \in {x \in EdgeCore : TRUE} }
+  \cup { Recs(<<l, ex>>, OrdT(l)) \cup Recs(<<m, ex>>, OrdT(m)) : l, m \in EdgeCore }
 OrderZonesOk == \A z \in OrderZones : \A r1, r2 \in z : (NameEq(r1.n, r2.n) /\ r1.t = r2.t) => r1 = r2
 
 \* NSEC3 parameters: iteration counts around the RFC 5155 10.3 limits and the
@@ -280,48 +280,109 @@ SoaOf == IF Cardinality(zone) % 2 = 0 THEN [ttl |-> 3600, min |-> 300] ELSE [ttl
 SaltOf == IF Cardinality(zone) % 4 < 2 THEN <<>> ELSE <<171, 205>>
 ItersOf == IF Cardinality(zone) % 3 = 0 THEN 2 ELSE IF Cardinality(zone) % 3 = 1 THEN 0 ELSE 1
 
+\* Aliases the result must not depend on.  ctor: the configuration starts from
+\* new() or from Default::default().  allroutes: the executor hands the sorted
+\* records to the generator through every public route (SortedRecords built by
+\* From<Vec> / FromIterator and owner_rrs(), RecordsIter::new over the owned
+\* slice, RecordsIter::new_from_refs over references) and reads the generated
+\* records directly and after every representation conversion (composed into
+\* a message and parsed, OctetsFrom to other octets types and back, rebuilt
+\* through the setters, bitmaps / salts / hashes through their serde forms).
+CtorOf == IF Cardinality(zone) % 2 = 0 THEN "new" ELSE "default"
 EmitNsec ==
   (step = "nsec") =>
     LET v == View(zone, Apex) IN
     \A a \in BOOLEAN : PrintT("CASE " \o ToJson(
-      [in  |-> [kind |-> "nsec", apex |-> Apex, recs |-> ZoneJ, soa |-> SoaOf, assume |-> a],
+      [in  |-> [kind |-> "nsec", apex |-> Arg, recs |-> ZoneJ, soa |-> SoaOf, assume |-> a,
+                ctor |-> CtorOf, allroutes |-> TRUE],
        exp |-> [chain |-> ChainJ(NsecChainV(v, Apex, a)),
                 ttl |-> Min(SoaOf.ttl, SoaOf.min), class |-> 1]]))
 \* The configuration is built through the public setter methods of
 \* GenerateNsec3Config (defaults: DNSKEY assumed, no opt-out, exclusion on once
 \* opt-out is on); the result must not depend on the order of the calls.
+\* The NSEC3PARAM TTL mode (default: the SOA TTL) is set on the configurations
+\* that assume DNSKEYs, which mode depends on the zone.
+TtlModeOf(c) ==
+  IF ~c.assume \/ (kind = "zone" /\ Cardinality(zone) % 4 = 3) THEN DefaultTtlMode
+  ELSE CASE Cardinality(zone) % 3 = 0 -> [m |-> "soa", v |-> 0]
+         [] Cardinality(zone) % 3 = 1 -> [m |-> "soa_min", v |-> 0]
+         [] OTHER -> [m |-> "fixed", v |-> 7]
 Setters(c, flagonly) ==
-  (IF c.assume THEN {} ELSE {"no_dnskey"})
+  (IF ~c.assume THEN {"no_dnskey"}
+   ELSE IF kind = "zone" /\ Cardinality(zone) % 4 = 3 THEN {} ELSE {"ttl_" \o TtlModeOf(c).m})
   \cup (IF c.exclude \/ flagonly THEN {"opt_out"} ELSE {})
   \cup (IF flagonly THEN {"no_exclude"} ELSE {})
 Perms(S) == {p \in [1..Cardinality(S) -> S] : \A i, j \in 1..Cardinality(S) : i # j => p[i] # p[j]}
+SetToSeq2(S) == CHOOSE p \in Perms(S) : TRUE
+\* every order of the setter calls on every other zone, one order on the rest
+Orders(S) == IF Cardinality(zone) % 2 = 0 THEN Perms(S) ELSE {SetToSeq2(S)}
+\* the parameters of an emitted case, and the term of a name's hash: unrolled
+\* for up to 2 iterations, Rep(k, ..) beyond ("rep" is always handed over)
+ParamsOf == IF rk >= 100 THEN PM[rk - 100] ELSE [salt |-> SaltOf, iters |-> ItersOf]
+TermOf(n, P) == IF P.iters <= 2 THEN Nsec3Term(n, P.salt, P.iters) ELSE Nsec3TermR(n, P.salt, P.iters)
+\* (the second form goes along on a third of the zones and on every PM case)
+NamesJ(names, P) ==
+  IF rk >= 100 \/ Cardinality(zone) % 3 = 0
+  THEN [i \in 1..Len(names) |->
+          [n |-> names[i], term |-> TermOf(names[i], P), rep |-> Nsec3TermR(names[i], P.salt, P.iters)]]
+  ELSE [i \in 1..Len(names) |-> [n |-> names[i], term |-> TermOf(names[i], P)]]
+N3Case(v, ap, arg, zj, soa, c, flagonly, order, P, ctor, allroutes, mode) ==
+  LET owners == N3OwnersV(v, c.exclude)
+      names == SortNames(N3NamesV(v, ap, c.exclude))
+  IN [in  |-> [kind |-> "nsec3", apex |-> arg, recs |-> zj, soa |-> soa, assume |-> c.assume,
+               setters |-> order, ttlv |-> mode.v, ctor |-> ctor, allroutes |-> allroutes,
+               optout |-> IF c.exclude THEN "exclude" ELSE IF flagonly THEN "flagonly" ELSE "none",
+               salt |-> P.salt, iters |-> P.iters, names |-> NamesJ(names, P)],
+      exp |-> [entries |-> [i \in 1..Len(names) |->
+                              [n |-> names[i],
+                               types |-> SetToSeq(N3TypesV(v, ap, owners, c.assume, names[i]))]],
+               linked |-> TRUE,
+               flags |-> IF c.exclude \/ flagonly THEN 1 ELSE 0,
+               ttl |-> Min(soa.ttl, soa.min), paramttl |-> ParamTtl(mode, soa)]]
 EmitNsec3 ==
   (step = "nsec3" /\ rk = 1) =>
-    LET v == View(zone, Apex) IN
+    LET v == View(zone, Apex)
+        P == ParamsOf
+        ctor == IF P = DefaultParams THEN CtorOf ELSE "new"
+    IN
     \A c \in Configs : \A flagonly \in {FALSE} \cup (IF c.exclude THEN {} ELSE {TRUE}) :
-     \A order \in Perms(Setters(c, flagonly)) :
-      LET owners == N3OwnersV(v, c.exclude)
-          names == SortNames(N3NamesV(v, Apex, c.exclude))
-      IN PrintT("CASE " \o ToJson(
-        [in  |-> [kind |-> "nsec3", apex |-> Apex, recs |-> ZoneJ, soa |-> SoaOf, assume |-> c.assume,
-                  setters |-> order,
-                  optout |-> IF c.exclude THEN "exclude" ELSE IF flagonly THEN "flagonly" ELSE "none",
-                  salt |-> SaltOf, iters |-> ItersOf,
-                  names |-> [i \in 1..Len(names) |->
-                               [n |-> names[i], term |-> Nsec3Term(names[i], SaltOf, ItersOf)]]],
-         exp |-> [entries |-> [i \in 1..Len(names) |->
-                                 [n |-> names[i],
-                                  types |-> SetToSeq(N3TypesV(v, Apex, owners, c.assume, names[i]))]],
-                  linked |-> TRUE,
-                  flags |-> IF c.exclude \/ flagonly THEN 1 ELSE 0,
-                  ttl |-> Min(SoaOf.ttl, SoaOf.min), paramttl |-> SoaOf.ttl]]))
+     \A order \in Orders(Setters(c, flagonly)) :
+      PrintT("CASE " \o ToJson(N3Case(v, Apex, Arg, ZoneJ, SoaOf, c, flagonly, order, P, ctor, TRUE, TtlModeOf(c))))
+\* every parameter set: the chain, and every public route to a name's hash
+\* (nsec3_hash, nsec3_default_hash where the parameters are the default ones,
+\* mk_hashed_nsec3_owner_name; the salt built by every Nsec3Salt constructor)
+EmitParams ==
+  (step = "nsec3" /\ rk >= 100) =>
+    LET v == View(zone, Apex)
+        P == ParamsOf
+        ctor == IF P = DefaultParams THEN "default" ELSE "new"
+        names == SortNames(N3NamesV(v, Apex, FALSE))
+    IN /\ \A c \in Configs :
+            PrintT("CASE " \o ToJson(N3Case(v, Apex, Arg, ZoneJ, SoaOf, c, FALSE, SetToSeq2(Setters(c, FALSE)),
+                                            P, ctor, P.iters <= 300, TtlModeOf(c))))
+       /\ \A i \in 1..Len(names) :
+            PrintT("CASE " \o ToJson(
+              [in  |-> [kind |-> "n3hash", n |-> IF i % 2 = 0 THEN UpName(names[i]) ELSE names[i], apex |-> Arg,
+                        salt |-> P.salt, iters |-> P.iters,
+                        term |-> TermOf(names[i], P), rep |-> Nsec3TermR(names[i], P.salt, P.iters)],
+               exp |-> [hash |-> TRUE, owner |-> TRUE, salts |-> TRUE, default |-> P = DefaultParams]]))
+EmitBad ==
+  step = "bad" =>
+    /\ \A a \in BOOLEAN : PrintT("CASE " \o ToJson(
+         [in  |-> [kind |-> "nsec", apex |-> Apex, recs |-> ZoneJ, soa |-> SoaOf, assume |-> a,
+                   ctor |-> "new", allroutes |-> TRUE],
+          exp |-> [err |-> TRUE]]))
+    /\ \A c \in Configs : PrintT("CASE " \o ToJson(
+         [in  |-> [kind |-> "nsec3", apex |-> Apex, recs |-> ZoneJ, soa |-> SoaOf, assume |-> c.assume,
+                   setters |-> SetToSeq2(Setters(c, FALSE)), ttlv |-> 7, ctor |-> "new", allroutes |-> TRUE,
+                   optout |-> IF c.exclude THEN "exclude" ELSE "none", salt |-> <<>>, iters |-> 0, names |-> <<>>],
+          exp |-> [err |-> TRUE]]))
 \* Apex names at the length limit: the hashed owner name is a 32-character
 \* label (33 octets) in front of the apex, so an apex of 222 wire octets is the
 \* longest that can carry an NSEC3 chain (255-octet owner names)
 ApexOfLen(w) == <<LN(w - 194), L63(1), L63(2), L63(3)>>         \* 3 * 64 + (w - 193) + 1 = w
 LongApexes == {ApexOfLen(220), ApexOfLen(221), ApexOfLen(222)}
 LongZone(ap) == Recs(ap, {T_SOA, T_NS}) \cup Recs(<<la>> \o ap, {T_A}) \cup Recs(<<lb, lb>> \o ap, {T_NS})
-SetToSeq2(S) == CHOOSE p \in Perms(S) : TRUE
 AtStart == kind = "bitmap" /\ adds = <<>>
 LongApexLaws == AtStart =>
   \A ap \in LongApexes :
@@ -338,22 +399,12 @@ EmitLongApex == AtStart =>
          zj == [i \in 1..Len(s) |-> s[Len(s) + 1 - i]]
          soa == [ttl |-> 3600, min |-> 300]
      IN /\ PrintT("CASE " \o ToJson(
-              [in  |-> [kind |-> "nsec", apex |-> ap, recs |-> zj, soa |-> soa, assume |-> TRUE],
+              [in  |-> [kind |-> "nsec", apex |-> ap, recs |-> zj, soa |-> soa, assume |-> TRUE,
+                        ctor |-> "new", allroutes |-> TRUE],
                exp |-> [chain |-> ChainJ(NsecChainV(v, ap, TRUE)), ttl |-> 300, class |-> 1]]))
         /\ \A c \in Configs :
-             LET owners == N3OwnersV(v, c.exclude)
-                 names == SortNames(N3NamesV(v, ap, c.exclude))
-             IN PrintT("CASE " \o ToJson(
-               [in  |-> [kind |-> "nsec3", apex |-> ap, recs |-> zj, soa |-> soa, assume |-> c.assume,
-                         setters |-> SetToSeq2(Setters(c, FALSE)),
-                         optout |-> IF c.exclude THEN "exclude" ELSE "none", salt |-> <<171>>, iters |-> 1,
-                         names |-> [i \in 1..Len(names) |->
-                                      [n |-> names[i], term |-> Nsec3Term(names[i], <<171>>, 1)]]],
-                exp |-> [entries |-> [i \in 1..Len(names) |->
-                                        [n |-> names[i],
-                                         types |-> SetToSeq(N3TypesV(v, ap, owners, c.assume, names[i]))]],
-                         linked |-> TRUE, flags |-> IF c.exclude THEN 1 ELSE 0,
-                         ttl |-> 300, paramttl |-> 3600]]))
+             PrintT("CASE " \o ToJson(N3Case(v, ap, ap, zj, soa, c, FALSE, SetToSeq2(Setters(c, FALSE)),
+                                             [salt |-> <<171>>, iters |-> 1], "new", TRUE, TtlModeOf(c))))
 EmitBitmap ==
   kind = "bitmap" => PrintT("CASE " \o ToJson(
       [in  |-> [kind |-> "bitmap", adds |-> adds],
